@@ -1101,6 +1101,24 @@ fn main() {
     ] {
         programs.push((text.to_owned(), vec![], "boundary-arithmetic"));
     }
+    // 3f. literals at the extremes of INTEGER and LONG in every spelling (decimal, &H, &O, negated once or twice,
+    // parenthesised), stored into every numeric type by assignment, by-value parameter, FOR bounds, DATA / READ,
+    // array element: whatever the parser folds such a literal into must still be in range where it is stored
+    // (after a wave-7 seed: `-&H8000` folded into an INTEGER literal 32768)
+    let lits = [
+        "-&H8000", "-&O100000", "--32768", "-(-32768)", "-(&H8000)", "&H8000", "&HFFFF", "-&HFFFF", "-32768", "32767",
+        "-&H7FFF", "- -32768", "-&H80000000", "-&O20000000000", "--2147483648", "-(-2147483648)", "&H80000000",
+        "&HFFFFFFFF", "-2147483648", "2147483647", "-&H7FFFFFFF", "NOT &H7FFF", "NOT -&H8000", "-&H8000 - 1", "- -&H8000",
+    ];
+    for lit in lits {
+        for sfx in ["%", "&", "!", "#"] {
+            programs.push((format!("ON ERROR RESUME NEXT\nA{} = {}\nB{} = A{}\n", sfx, lit, sfx, sfx), vec![], "boundary-arithmetic"));
+            programs.push((format!("ON ERROR RESUME NEXT\nDIM A(1 TO 2) AS {}\nA(1) = {}\n", ["INTEGER", "LONG", "SINGLE", "DOUBLE"][["%", "&", "!", "#"].iter().position(|x| *x == sfx).unwrap()], lit), vec![], "boundary-arithmetic"));
+            programs.push((format!("SUB S (P{})\n Q{} = P{}\nEND SUB\nON ERROR RESUME NEXT\nS ({})\nS {}\n", sfx, sfx, sfx, lit, lit), vec![], "boundary-arithmetic"));
+            programs.push((format!("ON ERROR RESUME NEXT\nFOR I{} = {} TO {}\nNEXT\n", sfx, lit, lit), vec![], "boundary-arithmetic"));
+            programs.push((format!("ON ERROR RESUME NEXT\nREAD A{}\nDATA {}\n", sfx, lit), vec![], "boundary-arithmetic"));
+        }
+    }
     let mut checked_values = 0u64;
     let mut outcomes: std::collections::BTreeMap<String, u64> = Default::default();
     for (i, (text, stdin, class)) in programs.iter().enumerate() {
